@@ -304,7 +304,7 @@ def run(ctx):
             seen.add(it[2]); uniq.append(it)
     items = uniq
     ctx.bounds = {"bases": [b[0] for b in B], "sealed_and_raw_mutants": len(items), "short_files": len(short), "deviations": 2 if thorough else 1,
-                  "operations": SINGLES, "pair_operations": PAIR_OPS, "tools": ["%s %s" % (t, " ".join(a)) for t, a in TOOLS + TOOLS_NET]}
+                  "operations": SINGLES, "pair_operations": PAIR_OPS, "clear_error_sequences": "X,clear-error,Y / recovering read,Y / partial read,Y", "tools": ["%s %s" % (t, " ".join(a)) for t, a in TOOLS + TOOLS_NET]}
     ctx.rule = ("case = (file bytes, operation sequences, or tool invocation) in a forked child under ASan+UBSan; non-trivial = files whose header "
                 "opens (parsing got behind the checksum gate)")
     opened = []
@@ -333,6 +333,12 @@ def run(ctx):
     sel = opened if thorough else opened[::3]
     for r in core.pmap(work, [(peer, ch, pairs, 20000) for ch in core.chunks(sel, 40)]):
         absorb(r)
+    # an error, the error cleared, then the next call: X, clear-error, Y on one context; and a partial read in front of Y
+    triples = ["%s,E,%s" % (a, b) for a in ("RB", "V", "CL", "C0", "Pt", "F") for b in ("RB", "V", "CL", "G", "X", "M")]
+    triples += ["Re,%s" % b for b in ("G", "CL", "V", "X")] + ["r,%s" % b for b in ("CL", "C0", "V", "RB", "r,X")]
+    for r in core.pmap(work, [(peer, ch, triples, 20000) for ch in core.chunks(sel, 40)]):
+        absorb(r)
+    ctx.extra["clear_error_sequences_per_file"] = len(triples)
     ctx.note("pairs done %.1fs" % (time.time() - t0))
     # tools
     tsel = opened + ([it for it in items if it not in opened][::4] if thorough else [it for it in items if it not in opened][::25])
